@@ -286,7 +286,9 @@ def inject_fault(doc, rng):
         if not rec.entries: return None
         k = rng.randrange(len(rec.entries)); at = epos[k]
         bad = rng.choice(["25:00 - 26:00", "8:60 - 9:00", "8:00 - 9:60", "1h60m", "8:00 -", "8:00 9:00", "- 8:00", "8:00 - 9:00am>pm", "1.5h", "h", "8:00-", "8:00 - 24:01",
-                          "13:00pm - 14:00", "8:00 -- 9:00", "24:00> - ?", "<8:00> - 9:00", "8:00 – 9:00", "--1h", "1h30", "8 - 9"])
+                          "13:00pm - 14:00", "8:00 -- 9:00", "24:00> - ?", "<8:00> - 9:00", "8:00 – 9:00", "--1h", "1h30", "8 - 9",
+                          # only "spaces" (U+0020) may surround the dash of a range
+                          "8:00 -\t9:00", "8:00 \t- 9:00", "8:00-\t?", "8:00\t- 9:00", "8:00 - \t?", "8:00\u00a0- 9:00", "8:00 -\u00a09:00", "8:00 -\u3000?", "<23:00\t-\t1:00>"])
         lines[at] = rec.ind + bad + rng.choice(["", " text"])
     elif kind == "reversed-range":
         if not rec.entries: return None
